@@ -594,6 +594,14 @@ class LoaderComponent(Component):
 
     def make(self, rng, params):
         nmax = params.get("nmax", 7)
+        if "nmax" not in params and rng.random() < params.get("deep_chain", 0.003):
+            return {"desc": gen.long_chain(rng), "kind": "long-chain"}
+        if "nmax" not in params and rng.random() < 0.0015:
+            # BEYOND what the extracted model evaluates in reasonable time (it is cubic in the number of units):
+            # a plain chain of 1 000 - 1 500 units, deeper than CPython's default recursion limit.  The loaded
+            # processor of such a chain is known in closed form; the model is not consulted (oracle stream).
+            n = rng.choice([1001, 1200, 1500])
+            return {"desc": gen.plain_deep_chain(n), "kind": "deep-chain-oracle", "oracle_n": n}
         d = gen.valid_desc(rng, nmax) if rng.random() < params.get("valid", 0.6) else gen.rand_desc(rng, nmax)
         kind = "plain"
         r = rng.random()
@@ -619,9 +627,31 @@ class LoaderComponent(Component):
         import implrun
         d = copy.deepcopy(case["desc"])
         enc, proc, mutated = implrun.enc_load(d)
+        if case.get("oracle_n"):
+            tiny = gen.plain_deep_chain(2)
+            return [implrun.desc_to_sx(tiny), [Sym("err"), [Sym("unused")]]], {"out": enc, "mutated": mutated}
         return [implrun.desc_to_sx(case["desc"]), enc[:2]], {"out": enc, "mutated": mutated}
 
     def judge(self, case, impl, res):
+        if case.get("oracle_n"):
+            us = case["desc"]["units"]              # (names may have been re-lettered by the case transformations)
+            n = len(us)
+            i = jsonable(impl["out"])
+            nm = lambda k: us[k]["name"]
+            unit = lambda k: [nm(k), 1, [us[0]["capabilities"][0]], k == 0, k == 0, []]   # first spelling
+            want = ["ok", [[unit(0)], [[unit(n - 1), [nm(n - 2)]]], [],
+                           [[unit(k), [nm(k - 1)]] for k in range(n - 2, 0, -1)]]]
+            plain = n >= 3 and all(u["width"] == 1 and len(u["capabilities"]) == 1 and
+                                   u["capabilities"][0].lower() == us[0]["capabilities"][0].lower() and
+                                   bool(u.get("readLock")) == (k == 0) and bool(u.get("writeLock")) == (k == 0) and
+                                   not u.get("memoryAccess") for k, u in enumerate(us)) and \
+                len({u["name"].lower() for u in us}) == n and \
+                [[a.lower(), b.lower()] for a, b in case["desc"]["dataPath"]] == [[nm(k).lower(), nm(k + 1).lower()] for k in range(n - 1)]
+            ok = (canon_proc(i[1]) == canon_proc(want[1]) if str(i[0]) == "ok" else False) or not plain
+            verdict = [ok, "a plain chain deeper than the recursion limit loads to itself, sink first"]
+            return std_report(case, True, want[:1], i[:1], {"C09": verdict, "C10": verdict, "C11": verdict, "C12": verdict},
+                              tags=[f"outcome:{'accepted' if str(i[0]) == 'ok' else i[1][0]}", "kind:deep-chain-oracle"],
+                              nontrivial=True)
         m = jsonable(res["model"][0])
         i = jsonable(impl["out"])
         checks = checks_of(res)
@@ -813,6 +843,7 @@ class PipelineComponent(Component):
         import contextlib
         import io
         import logging
+        import os
         import implrun
         import sys
         # the module binds csv.writer(sys.stdout) when it is imported: import it with a forwarding stand-in for
@@ -829,6 +860,21 @@ class PipelineComponent(Component):
         ps = implrun.M("processor_sim")
         buf = io.StringIO()
         logging.disable(logging.CRITICAL)
+        if os.path.getsize(ap) % 5 == 0:
+            # history: an earlier run in this process whose output device failed in the middle of the table
+            # (disk full / closed pipe); whatever the driver had buffered then must not leak into this run
+            class _Full(io.StringIO):
+                def write(self, s):
+                    if self.tell() + len(s) > 7:
+                        raise OSError(28, "No space left on device")
+                    return super().write(s)
+            full = _Full()
+            _STDOUT_PROXY.target = full
+            try:
+                with contextlib.redirect_stdout(full):
+                    ps.run(open(yp), open(ap))       # noqa: SIM115
+            except BaseException:  # noqa: BLE001
+                pass
         _STDOUT_PROXY.target = buf
         try:
             with contextlib.redirect_stdout(buf):
